@@ -18,7 +18,23 @@ from .path import Unsupported
 from .values import SInt, SBool, SStr, SOpt, SChoice, SList, Sym, Opaque, to_z3, wrap
 from . import models
 
-_SORT = {'int': lambda: z3.IntSort(), 'bool': lambda: z3.BoolSort(), 'str': lambda: z3.StringSort()}
+_SORT = {'int': lambda: z3.IntSort(), 'bool': lambda: z3.BoolSort(), 'str': lambda: z3.StringSort(),
+         'obj': lambda: z3.IntSort()}      # 'obj': arbitrary Python objects, represented by integer handles
+
+
+def handle_of(interp, obj):
+    """The handle (integer term) that stands for a Python object inside symbolic lists of objects.  Distinct
+    objects have distinct handles; the same object always the same one."""
+    st = interp.st
+    tab = st.ghost.setdefault('__handles__', {})
+    ent = tab.get(id(obj))
+    if ent is None:
+        h = st.fresh_int('handle')
+        for (_o, other) in tab.values():
+            st.assume_unscoped(h != other)
+        ent = (obj, h)
+        tab[id(obj)] = ent
+    return ent[1]
 
 
 def _kind(v):
@@ -57,6 +73,9 @@ def record_shape(iface):
 
 def shape_of_value(v):
     """Shape of a list element.  Besides scalars and tuples of scalars:
+       ('obj',)                an arbitrary Python object (`MListOf(Any_)`): stored as its integer handle
+                               (`handle_of`); an element read back is the handle -- compare with
+                               `contracts.common.is_item(xs[j], obj)`
        ('opt', s)              an optional value (SOpt / None) of shape s
        ('ref', iface, uid, n)  an opaque object that is a function of n integer index terms (an element of a
                                symbolic sequence of interface objects, a structured result of a pure method):
@@ -156,6 +175,9 @@ def _encode(interp, shape, v, path=(), out=None, absent=False):
             raise Unsupported('symbolic list of %s cannot hold %r' % (shape[1].__name__, v))
         for name, s in shape[2]:
             _encode(interp, s, None if absent else v.__dict__[name], path + (name,), out, absent)
+    elif k == 'obj':
+        # an arbitrary Python object, stored as its handle (an element read from such a list IS a handle)
+        out[path] = 0 if absent else v if isinstance(v, SInt) else wrap(handle_of(interp, v))
     else:
         if absent:
             out[path] = _DEFAULT[k]
@@ -525,6 +547,8 @@ def join(interp, sep, xs):
             xs.base_measures[key] = j
         acc = xs.base_measures[key]
         empty = xs.base_len == 0
+        if xs.tail and st.must_hold_lengths(xs.base_len >= 1):
+            empty = z3.BoolVal(False)      # (known by arithmetic: no case distinction in the term)
     from . import strings
     for x in xs.tail:
         if isinstance(sep, str) and sep == '':
